@@ -188,23 +188,27 @@ package qbft
 //@ pure Msg.ToConsensusMsg Msg.Value Msg.PreparedValue
 
 //@ func (t *transport) Broadcast
-//@ props C02 C03 C05
+//@ props C02 C03 C04 C05
 //@ callreq t.getValue: a1 != [32]byte{}
 //@ callreq createMsg: a1 == typ && a2 == duty && a3 == peerIdx && a4 == round && a5 == valueHash && a6 == pr && a7 == pvHash && a9 == justification && a10 == t.privkey
 //@ callreq createMsg: a8 == values && (valueHash == [32]byte{} || has(values, valueHash)) && (pvHash == [32]byte{} || has(values, pvHash))
+// every value AND every prepared value named by a justification travels with the message (a receiver rejects dangling hashes)
+//@ callreq createMsg: forall(k, 0, len(justification), (justification[k].(Msg).Value() == [32]byte{} || has(values, justification[k].(Msg).Value())) && (justification[k].(Msg).PreparedValue() == [32]byte{} || has(values, justification[k].(Msg).PreparedValue())))
 //@ callreq t.broadcaster.Broadcast: a2 == msg.ToConsensusMsg() && ncalls(createMsg) == 1
 //@ ensures result == nil ==> ncalls(t.broadcaster.Broadcast) == 1 && ncalls(createMsg) == 1
 //@ loop 1 invariant len(hashes) == 2 + 2*$i && hashes[0] == valueHash && hashes[1] == pvHash && ncalls(createMsg) == 0
-//@ loop 2 invariant forall(j, 0, $i, hashes[j] == [32]byte{} || has(values, hashes[j])) && ncalls(createMsg) == 0 && len(hashes) >= 2 && hashes[0] == valueHash && hashes[1] == pvHash
+//@ loop 1 invariant forall(k, 0, $i, hashes[2+2*k] == justification[k].(Msg).Value() && hashes[3+2*k] == justification[k].(Msg).PreparedValue())
+//@ loop 2 invariant forall(j, 0, $i, hashes[j] == [32]byte{} || has(values, hashes[j])) && ncalls(createMsg) == 0 && len(hashes) == 2 + 2*len(justification) && hashes[0] == valueHash && hashes[1] == pvHash
+//@ loop 2 invariant forall(k, 0, len(justification), hashes[2+2*k] == justification[k].(Msg).Value() && hashes[3+2*k] == justification[k].(Msg).PreparedValue())
 
 // self-delivery: the instance receives the very message that is broadcast
 //@ func (t *transport) Broadcast$1
-//@ props C02 C03
+//@ props C02 C03 C04
 //@ callreq send t.recvBuffer: a1 == msg
 
 // incoming messages are handed to the instance unchanged, after their values were recorded
 //@ func (t *transport) ProcessReceives
-//@ props C02 C03 C05
+//@ props C02 C03 C04 C05
 //@ callreq t.setValues: a1 == msg
 //@ callreq send t.recvBuffer: a1 == msg && ncalls(t.setValues) == ncalls("send t.recvBuffer") + 1
 //@ loop 1 invariant ncalls(t.setValues) == ncalls("send t.recvBuffer")
